@@ -2,7 +2,7 @@ ID = "C20"
 TESTS = [
     T("lockset", "TestC20OpenedFileConcurrentOwners",
       {"checks": 800, "shards": 4, "timeout": 300},
-      {"checks": 8000, "shards": 8, "timeout": 1500},
+      {"checks": 3000, "shards": 8, "timeout": 1500},
       race=True),
 ]
 ASSUMPTIONS = [
